@@ -71,13 +71,13 @@ Proof. exact (tauchen_rows Phi Phi_mono Phi_range). Qed.
 
 (* entry (i,j) is Phi at the upper edge minus Phi at the lower edge of cell j seen from rho*x_i; end cells open *)
 Theorem C13_tauchen_entry : forall n rho sigma std_y n_std i j,
-  (i < n)%nat -> (j < n)%nat ->
+  (2 <= n)%nat -> (i < n)%nat -> (j < n)%nat ->
   let x := fun k => getQ (tauchen_x n std_y n_std) k in
   let half := (1 # 2) * ((n_std * std_y - - (n_std * std_y)) / natQ (n - 1)) in
   nth j (nth i (tauchen_P Phi n rho sigma std_y n_std) []) 0 ==
   (if (j =? n - 1)%nat then 1 else Phi ((x j - rho * x i + half) / sigma))
   - (if (j =? 0)%nat then 0 else Phi ((x j - rho * x i - half) / sigma)).
-Proof. intros n rho sigma std_y n_std i j. exact (tauchen_entry Phi Phi_mono n rho sigma std_y n_std i j). Qed.
+Proof. exact (tauchen_entry_spec Phi Phi_mono). Qed.
 End TauchenAnyCdf.
 Print Assumptions C13_tauchen_rows.
 Print Assumptions C13_tauchen_entry.
@@ -95,15 +95,11 @@ Example ex_Phi_ok : (forall x y, x <= y -> ex_Phi x <= ex_Phi y) /\ (forall x, 0
 Proof.
   assert (B : forall a b, Qle_bool a b = false -> b < a).
   { intros a b H. apply Qnot_le_lt. intro L. apply Qle_bool_iff in L. congruence. }
-  split.
-  - intros x y Hxy. unfold ex_Phi.
-    destruct (Qle_bool x (-1)) eqn:E1; [apply Qle_bool_iff in E1|apply B in E1];
-    destruct (Qle_bool y (-1)) eqn:E2; [apply Qle_bool_iff in E2|apply B in E2|apply Qle_bool_iff in E2|apply B in E2];
-    destruct (Qle_bool 1 x) eqn:E3; try (apply Qle_bool_iff in E3); try (apply B in E3);
-    destruct (Qle_bool 1 y) eqn:E4; try (apply Qle_bool_iff in E4); try (apply B in E4); lra.
-  - intro x. unfold ex_Phi.
-    destruct (Qle_bool x (-1)) eqn:E1; [lra|apply B in E1].
-    destruct (Qle_bool 1 x) eqn:E3; [lra|apply B in E3]. lra.
+  split; [intros x y Hxy|intro x]; unfold ex_Phi;
+    repeat match goal with
+    | |- context[Qle_bool ?a ?b] =>
+        let E := fresh "E" in destruct (Qle_bool a b) eqn:E; [apply Qle_bool_iff in E|apply B in E]
+    end; lra.
 Qed.
 Example ex_tauchen :
   let P := tauchen_P ex_Phi 3%nat (3 # 5) (4 # 5) 1 3 in
